@@ -45,7 +45,9 @@ type Registration struct {
 	In       *ssa.Function
 }
 
-func (r *Registration) IsEnc() bool { return strings.HasSuffix(r.Kind, "-enc") || r.Kind == "wrap-enc-mt" }
+func (r *Registration) IsEnc() bool {
+	return strings.HasSuffix(r.Kind, "-enc") || r.Kind == "wrap-enc-mt"
+}
 func (r *Registration) IsDec() bool { return strings.HasSuffix(r.Kind, "-dec") }
 
 // KeyName renders the key type(s).
